@@ -30,7 +30,7 @@ INV = {a: v for v, (_, _, a) in etgen.VARS.items()}
 
 
 def cases(tier, sd):
-    n = 48 if tier == "quick" else 1000
+    n = 72 if tier == "quick" else 1000
     return [dict(seed=20000 * sd + i) for i in range(n)]
 
 
@@ -117,7 +117,13 @@ def run_case(spec0):
                                               replace=False)]
             prev = [i for i in prev_its.get(rl, []) if i in all_its]
             if prev and rng.random() < 0.7:
-                req = sorted(set(req) | {prev[int(rng.integers(len(prev)))]})
+                pv = prev[int(rng.integers(len(prev)))]
+                req = sorted(set(req) | {pv})
+                j = all_its.index(pv)
+                if 0 < j < len(all_its) - 1 and rng.random() < 0.6:
+                    # an already cached iteration strictly inside the new request
+                    req = [all_its[int(rng.integers(0, j))], pv,
+                           all_its[int(rng.integers(j + 1, len(all_its)))]]
             rng.shuffle(req)
             want, tensor = biased_request(rng, spec, prev)
             explicit = None
